@@ -313,7 +313,9 @@ def run_impl_case(c, timeout=20.0):
     except CaseTimeout:
         return {"status": "TIMEOUT"}
     except MemoryError:
-        return {"status": "CRASH", "err": "MemoryError", "site": "address-space limit of the harness process", "msg": ""}
+        # the address-space bound is the harness's own (check.py): reaching it is a resource bound like the time
+        # bound - no observation for this case; many such cases are reported as mass_timeouts
+        return {"status": "TIMEOUT", "resource": "memory"}
     except RecursionError as e:
         # where the host stack ran out: inside expression evaluation (a long operator chain) or
         # in the stack of nested blocks/imports
